@@ -1,7 +1,6 @@
 import SamVerif.Props.C13
-import SamVerif.Props.C13b
 /-! Axiom audit of every C13 property theorem (parsed by vlib/common.py). -/
-open SamVerif.Scope SamVerif.Sig SamVerif.Fmt
+open SamVerif.Scope SamVerif.Sig
 #print axioms scope_alpha_events
 #print axioms scope_alpha_invariant
 #print axioms alpha_same_graph
@@ -11,4 +10,9 @@ open SamVerif.Scope SamVerif.Sig SamVerif.Fmt
 #print axioms signature_last_wins
 #print axioms signature_dup_order_counterexample
 #print axioms methods_perm_invariant
-#print axioms parens_insensitive
+#print axioms machine_observes_lookups
+#print axioms toplevel_order_invariant
+#print axioms toplevel_block_context
+#print axioms visit_scope_neutral
+#print axioms block_wrap_no_leak
+#print axioms block_wrap_resolution
